@@ -7,6 +7,17 @@ From SG Require Import Analysis.RealOps.
 Import ListNotations.
 Open Scope R_scope.
 
+(* ---- masks: decide every 0/1 indicator whose comparison lra can settle, then the np.where on it --------- *)
+Ltac ind_simpl :=
+  repeat match goal with
+  | |- context [ind_gt ?a ?b] => first [rewrite (ind_gt_true a b) by lra | rewrite (ind_gt_false a b) by lra]
+  | |- context [ind_ge ?a ?b] => first [rewrite (ind_ge_true a b) by lra | rewrite (ind_ge_false a b) by lra]
+  | |- context [ind_lt ?a ?b] => first [rewrite (ind_lt_true a b) by lra | rewrite (ind_lt_false a b) by lra]
+  | |- context [ind_le ?a ?b] => first [rewrite (ind_le_true a b) by lra | rewrite (ind_le_false a b) by lra]
+  | |- context [where_ 1 ?a ?b] => rewrite (where_1 a b)
+  | |- context [where_ 0 ?a ?b] => rewrite (where_false a b)
+  end.
+
 (* ---- locality ------------------------------------------------------------------------------------ *)
 Lemma locally_pos (a:R) (P:R->Prop) : 0 < a -> (forall y, 0 < y -> P y) -> locally a P.
 Proof.
